@@ -21,7 +21,8 @@ META = {
         'cls(...), not a fixed sibling. R4 tag discrimination (must-pass-through): every concrete message class that shares '
         'a wire family compares the tag it read with its own tag and raises InvalidType/InvalidValue before returning. '
         'R6: the asn1crypto schema tables of the LDAP messages (_fields/_alternatives, implicit tags, optional/default) '
-        'equal the RFC 4511 definitions.'),
+        'equal the RFC 4511 definitions.'
+        ' R7: parse_string_null_terminated evaluated on empty / offset / unterminated inputs; registry bindings of flag fields (enums.json).'),
     'assumptions': ['asn1crypto encodes/decodes BER according to the declared schema', 'sa/specs/opp.json transcribed by hand'],
     'trusted_base': ['sa/specs/opp.json', 'sa.interp/layout/canon/compare/spec'],
     'exhaustive': True,
